@@ -469,7 +469,8 @@ class Tree:
             assert match is None
             res = self._nodes_by_data_id.get(data_id)
             if res:
-                return res[max_results:] if max_results else res
+                # Return a copy, never the internal clone list itself
+                return res[:max_results] if max_results else list(res)
             return []
 
         elif match is not None:
